@@ -126,6 +126,10 @@ def gen_plan(prop, seed, index, tier="quick", with_faults=None):
     return {
         "format": 1, "prop": prop, "engine": "producer", "seed": scenario.subseed(seed, prop, index),
         "index": index, "cluster": cluster, "producers": producers, "faults": faults,
+        # a producer that is stuck re-requests metadata without pause: enough iterations for
+        # such a run to reach the liveness bound and the bounded stop() (a verdict, not a
+        # step-limit harness error)
+        "max_iters": 3_000_000,
     }
 
 
